@@ -48,6 +48,7 @@ Inductive obs :=
 | LInvoke (psn : nat) (h : Z) (q : nat)
 | LPlain (psn : nat) (h : Z)
 | LCallback (psn : nat)
+| LPostQ (psn : nat)
 | LWait (q : nat)
 | LClear (q : nat)
 | LErr (code : Z).
@@ -202,7 +203,7 @@ Definition do_wait (q : nat) (hold : bool) (s : state) : state :=
 (* EventManager._post *)
 Definition post (ev : Z) (isq : bool) (kwq : option nat) (s : state) : state :=
   let p := mkP (npsn s) ev isq kwq in
-  let s1 := upd_npsn s (S (npsn s)) in
+  let s1 := upd_npsn (if isq then add_log s (LPostQ (npsn s)) else s) (S (npsn s)) in
   if negb isq && negb (reg_has ev (reg s1)) then s1      (* fast path: no callback, no handler *)
   else
     let s2 := match evq s1 with [] => push_ready s1 RPeq | _ => s1 end in
@@ -401,6 +402,7 @@ Definition obs_eqb (a b : obs) : bool :=
   | LInvoke p h q, LInvoke p' h' q' => Nat.eqb p p' && (h =? h') && Nat.eqb q q'
   | LPlain p h, LPlain p' h' => Nat.eqb p p' && (h =? h')
   | LCallback p, LCallback p' => Nat.eqb p p'
+  | LPostQ p, LPostQ p' => Nat.eqb p p'
   | LWait q, LWait q' => Nat.eqb q q'
   | LClear q, LClear q' => Nat.eqb q q'
   | LErr _, LErr _ => true
@@ -523,7 +525,7 @@ Definition result_eqb (a b : result) : bool :=
   | RNone, RNone => true
   | RBool x, RBool y => Bool.eqb x y
   | RInt x, RInt y => x =? y
-  | RDict x, RDict y => kw_eqb x y
+  | RDict x, RDict y => kw_eqb (kw_norm x) (kw_norm y)      (* dicts compare as maps *)
   | _, _ => false
   end.
 
